@@ -207,6 +207,41 @@ def gap_shape(rng, kind):
     return dict(base, reads=reads)
 
 
+def cov_shape(rng, m, nreads):
+    """high coverage with blanks: one individual, every one of the 9-12 reads is active in one inner column t (so the
+    column's read list has nreads entries and its bipartitions run through Gray-code bits >= 8), some reads span t without
+    covering it (BLANK entry: mate gap / undetermined allele), and at least one BLANK entry stands in front of a covering
+    read whose index in the column is >= 8.  Other columns get whatever coverage the random extents give."""
+    t = rng.randint(2, m - 1)
+    while True:
+        reads = []
+        for _ in range(nreads):
+            first = rng.randint(1, t)
+            last = rng.randint(t, m)
+            if first == last:
+                first, last = (first - 1, last) if (first > 1 and rng.random() < 0.5) or last == m else (first, last + 1)
+            cols = [first] + [c for c in range(first + 1, last) if rng.random() < (0.65 if c == t else 0.5)] + [last]
+            reads.append({"ind": 1, "cells": [[c, rng.randint(0, 1)] for c in cols]})
+        reads.sort(key=lambda r: r["cells"][0][0])
+        blank = [all(c[0] != t for c in r["cells"]) for r in reads]
+        if any(blank[j] and not blank[x] for x in range(8, nreads) for j in range(x)):
+            return {"nInd": 1, "trios": [], "m": m, "reads": reads}
+
+
+def max_coverage(s):
+    return max([sum(1 for r in s["reads"] if r["cells"][0][0] <= c <= r["cells"][-1][0]) for c in range(1, s["m"] + 1)] or [0])
+
+
+def blank_in_deep_column(s):
+    """some column has >= 9 active reads and a BLANK entry in front of a covering read at index >= 8"""
+    for c in range(1, s["m"] + 1):
+        act = [r for r in s["reads"] if r["cells"][0][0] <= c <= r["cells"][-1][0]]
+        blank = [all(x[0] != c for x in r["cells"]) for r in act]
+        if any(blank[j] and not blank[x] for x in range(8, len(act)) for j in range(x)):
+            return True
+    return False
+
+
 QUALS = [0, 1, 2, 5, 10, 10, 20, 20, 30, 40, 60, 93, 255, 256, 300]
 PRIOR_ATOMS = [1, 1, 2, 3, 5, 10, 0.5, 0.1, 0.01, 1e-6]
 RCS = [0, 1, 3, 10, 10, 40, 100]
@@ -284,7 +319,7 @@ def _posterior_event(shape, graph, nums):
                 err = int(min(Decimal(ERR_CAP), (rel * Decimal(10) ** 12).to_integral_value(rounding="ROUND_CEILING")))
             entries.append({"i": i, "c": c, "g": g, "ok": err <= POST_TOL, "err": err})
     return {"ev": "Posterior", "nInd": shape["nInd"], "m": shape["m"], "nreads": len(shape["reads"]),
-            "nedges": len(graph), "tol": POST_TOL, "entries": entries}
+            "maxcov": max_coverage(shape), "deepblank": blank_in_deep_column(shape), "nedges": len(graph), "tol": POST_TOL, "entries": entries}
 
 
 # =============================================================================================
@@ -554,7 +589,10 @@ def _cli_events(sc):
 RULE = ("three scenario kinds. (hmm) one instance SHAPE of the genotyping HMM - TLC-enumerated tiny shapes (Gen_C08Shapes: every "
         "sorted sequence of <= 2 reads over 3 columns for one individual / over 2 columns for a trio) plus seeded random shapes "
         "(single <= 5 reads x <= 12 columns, unrelated pair, trio in three member orders <= 4 columns, quartet; blanks, uncovered "
-        "columns, nested reads) - for which TLC prints the state graph of GenoHMM; each of 4-20 random numeric draws (qualities incl. "
+        "columns, nested reads; and high-coverage shapes: one individual, 3-4 columns, 9-11 (thorough: 9-12) reads that are all active "
+        "in one inner column, some of them spanning it without covering it - BLANK entries of gapped / paired reads - with at least "
+        "one BLANK entry in front of a covering read at index >= 8 of the column, so that the column has 512-4096 bipartitions) "
+        "- for which TLC prints the state graph of GenoHMM; each of 4-20 random numeric draws (qualities incl. "
         "0 and >= 256, priors normalised/unnormalised/with a zero, recombination costs 0-100) is run through the real GenotypeDPTable "
         "and compared with the sum-product over TLC's graph; non-trivial = >= 2 reads share a column. (determine) a batch of "
         "TLC-enumerated (likelihood triple, threshold) pairs on the grid 1/20 (thorough: 1/40) given to the real determine_genotype. (cli) one seeded "
@@ -568,6 +606,7 @@ ASSUMPTIONS = [
     "TLC explores GenoHMM's state graph completely and prints every (state, successor) pair once (checked: printed edges = generated states - initial states)",
     "the posterior clause is decided by TLC's graph + a generic 40-line sum-product in 60-digit decimal arithmetic in the driver (TLC has no reals); TLC judges the logged scaled deviation",
     "domain of GenotypeDPTable: reads sorted, every read has >= 2 cells (the backward column iterator asserts first < last column), priors not all zero",
+    "coverage above 5 reads per column is sampled for a single individual only (3 high-coverage shapes x 3 numeric draws in the quick tier, 24 x 6 in the thorough tier); the state graph of a trio at that coverage is too large to print",
     "the trio/quartet labelling of PedMEC.tla (shared with C01); depth-1 pedigrees",
     "GL is read back from the file with 6 significant digits: calls are judged up to 3 ppm, GQ up to the rounding boundary this can move",
     "a missing GT is accepted as '.' or './.'",
@@ -612,7 +651,7 @@ def _tlc_write(module, consts, outfile, timeout=1200):
 def _shape_cost(s):
     t = 4 ** len(s["trios"])
     a = 2 ** (2 * (s["nInd"] - len(s["trios"])))
-    return s["m"] * t * a * (t + 2) * 2 ** min(len(s["reads"]), 4)
+    return s["m"] * t * a * (t + 2) * 2 ** max(min(len(s["reads"]), 4), max_coverage(s))
 
 
 def scenarios(ctx):
@@ -651,6 +690,16 @@ def scenarios(ctx):
             shapes.append((rand_shape(rng, "trio", 5, 3), 10))
             shapes.append((rand_shape(rng, "trio", 3, 4), 10))
             shapes.append((rand_shape(rng, "quartet", 3, 3), 6))
+    # high coverage (9-12 reads in one column) with BLANK entries in front of covering reads: the Gray code of the column runs
+    # through its high bits, where the implementation may treat the partition word differently from the first 256 steps.
+    # (own generator forked from the seeded one, so that the other scenario kinds stay what they were)
+    import random
+    rng_cov = random.Random()
+    rng_cov.setstate(rng.getstate())
+    first_cov = len(shapes)
+    for nr in ([9, 10, 11] if q else [9, 10, 11, 12] * 6):
+        shapes.append((cov_shape(rng_cov, rng_cov.choice([3, 3, 4]), nr), 3 if q else 6))
+    ctx.notes["hmm_shapes_coverage_9_to_12_with_blanks"] = len(shapes) - first_cov
     # graphs: TLC explores GenoHMM for batches of shapes, several JVMs side by side
     gdir = os.path.join(ctx.workdir, "graphs")
     os.makedirs(gdir, exist_ok=True)
@@ -676,7 +725,7 @@ def scenarios(ctx):
                                "states": sum(r[1] for r in res), "tlc_wall_s": round(max(r[2] for r in res), 1)}
     styles = ["normalised", "raw", "uniform", "zero", "normalised", "raw"]
     for i, (s, ndraw) in enumerate(shapes):
-        draws = [rand_numbers(rng, s, styles[j % len(styles)]) for j in range(ndraw)]
+        draws = [rand_numbers(rng_cov if i >= first_cov else rng, s, styles[j % len(styles)]) for j in range(ndraw)]
         scs.append({"kind": "hmm", "shape": s, "draws": draws, "graph": os.path.join(gdir, f"g{i}.json")})
     # ---- (cli) worlds ----
     for i in range(60 if q else 2500):
@@ -772,6 +821,8 @@ def post(ctx, scs, per_tid):
                 calls += 1
                 called += e["gt"] >= 0
     ctx.notes["posterior_instances_compared"] = draws
+    ctx.notes["posterior_instances_coverage_ge_9_blank_before_covering_read"] = sum(
+        1 for evs in per_tid.values() for e in evs if e.get("ev") == "Posterior" and e.get("deepblank"))
     ctx.notes["posterior_worst_relative_deviation_1e-12"] = worst
     ctx.notes["vcf_calls_judged"] = {"total": calls, "called": called, "no_call": calls - called}
     hi = [e["mp"] for evs in per_tid.values() for e in evs if e.get("ev") == "Call" and e["gt"] >= 0 and e.get("file") != "writer"]
@@ -832,7 +883,8 @@ MANIFEST = {
     "text": "GenoHMM.tla describes the genotyping HMM structurally (hidden state = read bipartition, transmission value, allele "
             "assignment; micro-steps Carry, Transmit, Assign, Emit with symbolic labels); TLC model-checks its design properties and, "
             "for every instance shape of a run (TLC-enumerated tiny shapes and seeded random ones with blanks, trios in several "
-            "orders, a quartet, up to 10 columns so that sqrt-checkpointing is active), prints the complete state graph. The driver "
+            "orders, a quartet, up to 10 columns so that sqrt-checkpointing is active, and single-individual columns of coverage 9-12 "
+            "with blank entries of gapped reads), prints the complete state graph. The driver "
             "substitutes ~20 random number sets per shape and sums over TLC's graph with a generic sum-product in 60-digit arithmetic; "
             "the real GenotypeDPTable must agree to 1e-9 relative, which TLC judges on the recorded deviation. GenoCall.tla defines "
             "the GT/GL/GQ rule on scaled integers; TLC model-checks it on every grid triple x threshold, enumerates triple/threshold "
